@@ -4,6 +4,10 @@ package c12
 import (
 	"errors"
 	"fmt"
+	"github.com/ajitpratap0/GoSQLX/pkg/sql/tokenizer"
+	"os"
+	"path/filepath"
+	"sort"
 	"strings"
 
 	"github.com/ajitpratap0/GoSQLX/pkg/gosqlx"
@@ -223,6 +227,13 @@ errs:
 	}
 }
 
+func tokensOf(sql string) (*tokenizer.Tokenizer, []models.TokenWithSpan, error) {
+	tk := tokenizer.GetTokenizer()
+	defer tokenizer.PutTokenizer(tk)
+	toks, err := tk.Tokenize([]byte(sql))
+	return nil, append([]models.TokenWithSpan{}, toks...), err
+}
+
 // prefixKept reports whether got equals the expected trees once some malformed segments contribute the tree of one
 // of their strictly-parseable proper token prefixes; it returns the first word of the first such segment.
 func prefixKept(segs []seg, got string, flat func(string) string) string {
@@ -280,7 +291,7 @@ func Check() *common.Check {
 		Level:     "exploration",
 		CrashSafe: true,
 		Rule: "scripts S1;...;Sn: all sequences of n<=2 over the full pool (9 valid statements - one per kind plus DESCRIBE / SHOW / REPLACE, which do not start with a recovery synchronisation keyword - and every failing corruption of them: first / second / last token deleted, middle token duplicated or replaced, truncated after 2, 3, 4 tokens and at half, none containing a statement-starting keyword after its first token), n<=3 over the valid statements and an even spread of 14 corruptions " +
-			"and n<=5 (quick) / n<=6 (thorough) over 2 valid + 3 corrupt, each with and without a trailing semicolon; every rejected proper prefix (up to the first inner statement-starting keyword) of every clause-option, DML and DDL statement of the sqlgen space, followed by SHOW TABLES / a SELECT / a malformed non-keyword segment, and between two neighbours; every proper prefix of those statements followed by a statement exactly at the nesting limit (which must be returned); every single-token deletion / duplication / replacement inside every representative expression of sqlgen (in WHERE and in the select list) before a follower and between two neighbours; plus all lexeme sequences of length <=3 (quick) / <=4 (thorough) over a 24-lexeme alphabet for termination and the iff clause. " +
+			"and n<=5 (quick) / n<=6 (thorough) over 2 valid + 3 corrupt, each with and without a trailing semicolon; every rejected proper prefix (up to the first inner statement-starting keyword) of every clause-option, DML and DDL statement of the sqlgen space, followed by SHOW TABLES / a SELECT / a malformed non-keyword segment, and between two neighbours; every proper prefix of those statements followed by a statement exactly at the nesting limit (which must be returned); every byte prefix (quick: 600 bytes) of every corpus file under /repo/testdata for termination and the iff clause; every single-token deletion / duplication / replacement inside every representative expression of sqlgen (in WHERE and in the select list) before a follower and between two neighbours; plus all lexeme sequences of length <=3 (quick) / <=4 (thorough) over a 24-lexeme alphabet for termination and the iff clause. " +
 			"distinct = distinct script text; non-trivial = script mixes well-formed and malformed segments",
 		Assume: []string{"a segment is well-formed iff gosqlx.Parse accepts it alone", "parser-token count of a segment = number of generator lexemes; verified at run time on the accepted statement each segment was cut from, and where it does not hold (keyword pairs the tokenizer merges) the token-index clause is replaced by the reported-column clause alone"},
 		Enumerate: func(e *common.Enum) {
@@ -449,6 +460,57 @@ func Check() *common.Check {
 				corruptExpr("where:"+name, sqlgen.Sel{Items: []sqlgen.SelItem{{X: sqlgen.Col("c0")}}, From: []sqlgen.TableRef{{Name: "t0"}}, Where: &x}.Build())
 				corruptExpr("item:"+name, sqlgen.Sel{Items: []sqlgen.SelItem{{X: x}, {X: sqlgen.Col("c0")}}, From: []sqlgen.TableRef{{Name: "t0"}}}.Build())
 			})
+			// every byte prefix (quick: the first 600 bytes) of every corpus file: statement kinds and dialect constructs
+			// outside the model grammar, cut at every point - termination and the iff clause
+			var files []string
+			filepath.Walk("/repo/testdata", func(p string, info os.FileInfo, err error) error {
+				if err == nil && !info.IsDir() && strings.HasSuffix(p, ".sql") {
+					files = append(files, p)
+				}
+				return nil
+			})
+			sort.Strings(files)
+			for _, p := range files {
+				b, err := os.ReadFile(p)
+				if err != nil {
+					continue
+				}
+				text := string(b)
+				max := 600
+				if e.Thorough() || max > len(text) {
+					max = len(text)
+				}
+				rel := strings.TrimPrefix(p, "/repo/testdata/")
+				for k := 1; k <= max; k++ {
+					pre := text[:k]
+					if strings.Trim(pre, "; \t\r\n") == "" {
+						continue
+					}
+					e.Do(fmt.Sprintf("fileprefix|%s|%d", rel, k), func(c *common.Ctx) {
+						c.Input(fmt.Sprintf("%s[:%d]", rel, k))
+						_, errs := gosqlx.ParseWithRecovery(pre)
+						_, strictErr := gosqlx.Parse(pre)
+						// the iff clause speaks of inputs with at least one token other than semicolons
+						real := false
+						if _, toks, err := tokensOf(pre); err == nil {
+							for _, t := range toks {
+								if t.Token.Type != models.TokenTypeEOF && t.Token.Type != models.TokenTypeSemicolon {
+									real = true
+								}
+							}
+						} else {
+							real = true
+						}
+						if real && (len(errs) > 0) != (strictErr != nil) {
+							c.Fail("iff-mismatch@fileprefix", fmt.Sprintf("recovery reports %d errors but strict parsing error is %v", len(errs), strictErr))
+						}
+						c.Outcome("fileprefix")
+						if strictErr == nil {
+							c.NonTrivial()
+						}
+					})
+				}
+			}
 			// token soup: termination and the iff clause
 			alpha := []string{"SELECT", "FROM", "WHERE", "INSERT", "INTO", "VALUES", "UPDATE", "SET", "DELETE", "WITH", "AS", "(", ")", ",", ";", "*", "=", "a", "1", "'s'", "AND", "NOT", "JOIN", "CASE"}
 			K := 3
